@@ -19,6 +19,7 @@ COMMON_ASSUME = [
     "external calls are the models/stubs listed under coverage.stubs (DESIGN.md §5); each is part of the claim",
     "message atomicity: a handler runs on a cache of the state, discarded on error or panic (harness runMsg)",
     "token amounts range over |x| < 2^128",
+    "address strings: a valid string decodes to bytes whose rendering is that string, or is a non-canonical spelling of it (upper-case bech32) — both are explored; strings.ToLower/TrimSpace are uninterpreted functions with their algebraic laws",
 ]
 
 PROPS = {
@@ -95,9 +96,9 @@ PROPS = {
                            harness="^Harness_C18_L2_(End|Begin)Blocker$", pkgname="opchild", native=["rt.go.tmpl", "opchild_keeper.go.tmpl"], native_pkg="./x/opchild/keeper", native_pkgname="keeper",
                            runner="keeper.VerifRtRun", runner_import='"github.com/initia-labs/OPinit/x/opchild/keeper"')],
                 level_text="Bounded symbolic model checking of the real Go code by self-composition: every message handler, block hook and genesis function is executed twice from the same symbolic pre-state with independent copies of the runtime-oracle symbols (iteration order of every Go map range, time.Now); z3 must show every observable (panic, error, response, ordered events, ordered validator updates, every store cell and bank ledger) equal for all inputs and all pairs of oracle choices within the bounds.",
-                bounds=["one step (any of the 12 L1 / 8 L2 messages, EndBlocker with or without a plan, BeginBlocker, Export/InitGenesis) from an arbitrary symbolic pre-state, executed twice", "Go maps of up to 3 entries: every pair of iteration orders", "validator stores 2 (quick) / 3 (thorough) entries; L1 iterated stores 1 / 2 entries; genesis shapes as in C16"],
+                bounds=["one step (any of the 12 L1 / 8 L2 messages, EndBlocker with or without a plan, BeginBlocker, Export/InitGenesis) from an arbitrary symbolic pre-state, executed twice", "Go maps of up to 3 entries: every pair of iteration orders", "validator stores 2 (quick) / 3 (thorough) entries; L1 iterated stores 1 / 2 entries; genesis shapes as in C16", "deposit with a hook transaction of two stub-routed messages (HookStep): every reading of the wall clock (time.Now/time.Since) is an independent oracle in each execution"],
                 outside=["byte-level store encoding (codecs are assumed deterministic)", "goroutines / select (none on the explored paths; meeting one is reported INCONCLUSIVE)", "the oracle-update message (decoded by connect's codecs; C15 covers its gating)", "dependence on prior process history other than through the listed oracles"],
-                assumptions=COMMON_ASSUME + ["other modules reached through keepers/routers/hooks are deterministic: the same call sequence gets the same answers in both executions"]),
+                assumptions=COMMON_ASSUME + ["other modules reached through keepers/routers/hooks are deterministic: the same call sequence gets the same answers in both executions", "the modelled wall clock advances across calls into other components (stub message handlers) only: with no such call since the last time.Now, time.Since is below 1 ms (the replay realises elapsed time by sleeping in the stub handler, at most 1.5 s)"]),
     "C17": dict(runs=[dict(pkg="./x/ophost/types", overlay="harness/C17", pkgname="types", harness="^Harness_C17_", native=["rt.go.tmpl", "types_native.go.tmpl"])],
                 bounds=["proof depth 0..2 (quick) / 0..4 (thorough)", "three memory layouts of the proof list", "all 64-bit field values, opaque strings of any length"],
                 outside=["proofs deeper than 4"], assumptions=["sha3 is an uninterpreted function: equality of digests is decided by equality of preimage bytes", "address.Module is an uninterpreted injective function"]),
